@@ -40,6 +40,8 @@ def features(mod, t, v):
                 f.add('int_semi_msb_set')
             if c is not None and c.ext and ',...,' in c.text.replace(' ', ''):
                 f.add('int_ext_additional_ranges')
+            if c is not None and not c.ext and c.lb == 0 and c.ub == 4294967295:
+                f.add('int_cons_0_u32max')
             if c is not None and not c.ext and c.lb is not None and c.ub is not None and c.ub - c.lb >= (1 << 63):
                 f.add('int_range_ge_2_63')
         if k == 'BIT STRING':
